@@ -70,9 +70,14 @@ def remove_aliases_from_api(api):
             # with a data_type attribute - this ensures it resolves aliases
             # that are subtypes of composites e.g. Lists
             curr_type = alias
-            while hasattr(curr_type, 'data_type'):
-                curr_type.data_type = resolve_aliases(curr_type.data_type)
-                curr_type = curr_type.data_type
+            while hasattr(curr_type, 'data_type') or hasattr(curr_type, 'value_data_type'):
+                if hasattr(curr_type, 'value_data_type'):
+                    # Maps keep their element type in value_data_type.
+                    curr_type.value_data_type = resolve_aliases(curr_type.value_data_type)
+                    curr_type = curr_type.value_data_type
+                else:
+                    curr_type.data_type = resolve_aliases(curr_type.data_type)
+                    curr_type = curr_type.data_type
     # Remove alias layers from each data type
     for namespace in api.namespaces.values():
         for data_type in namespace.data_types:
